@@ -232,6 +232,7 @@ func builds() []Op {
 		b("build:gen", buildOpts{Target: tGen}),
 		b("build:leaf", buildOpts{Target: tLeaf}),
 		b("build:top(process started in misc/)", buildOpts{Target: tTop, ChildCwd: "misc"}),
+		b("build:docs", buildOpts{Target: tDocs}),
 		b("build:top:always", buildOpts{Target: tTop, Always: true}),
 		b("build:other", buildOpts{Target: tOther}),
 		b("build:colon", buildOpts{Target: tColon}),
@@ -373,7 +374,7 @@ func alphabet(prop string, thorough bool) []Op {
 			return pick(all...)
 		}
 		return pick("edit:src/a.txt", "edit:dir/x.txt", "const:K", "global:G", "flag:mode", "comment:BUILD.dawn", "comment+docstring:lib.dawn", "comment:pkg/BUILD.dawn",
-			"edit:misc/n.txt", "target:pkg:other", "delete:out/mid", "fail:leaf", "build:top", "build:mid", "build:leaf", "gc:full", "dry:top", "dep:diamond")
+			"edit:misc/n.txt", "target:pkg:other", "delete:out/mid", "fail:leaf", "build:top", "build:mid", "build:leaf", "gc:full", "dry:top", "dep:diamond", "build:docs")
 	case "C13":
 		if thorough {
 			return pick(all...)
